@@ -1,5 +1,6 @@
 """C04 - fragmentation enumerates every ion once and agrees with the mass calculator."""
 import itertools
+import math
 import re
 from collections import Counter
 
@@ -190,7 +191,17 @@ def check_fragments(ctx, st, pt, parse0, c, frags):
         m_full, m_neutral = st.mass_cache[mk]
         band = 0.0 if mono else (abs(f.charge) + 1) * 1.16e-4
         exp_mass = m_full if prec is None else round(m_full, prec)
-        exp_mz = m_full / f.charge if prec is None else round(exp_mass / f.charge, prec)
+        exp_mz = m_full / f.charge if prec is None else round(m_full / f.charge, prec)   # rounded once, as mz() does
+
+        def tol_for(exact, bnd):
+            # with a precision the reported value is the calculator's value rounded ONCE: it must be equal, except when
+            # the exact value sits within float noise (or the average-mode band) of a rounding boundary, where the two
+            # summation orders may legitimately round to neighbouring values
+            if prec is None:
+                return tol + bnd
+            y = exact * 10 ** prec
+            off = abs((y - math.floor(y)) - 0.5) / 10 ** prec
+            return (10 ** (-prec) if off <= 5e-9 + bnd else 0.0) + 1e-9 + bnd
         bad = []
         if prec is not None:
             # a requested precision means the reported values ARE rounded to it (0 decimals included)
@@ -200,9 +211,9 @@ def check_fragments(ctx, st, pt, parse0, c, frags):
                     ctx.violation('value-not-rounded-to-requested-precision',
                                   {'text': c['text'], 'request': req, 'ion': (f.ion_type, f.start, f.end, f.charge),
                                    'what': what_, 'observed': v_, 'precision': prec})
-        if abs(f.mass - exp_mass) > tol + band:
+        if abs(f.mass - exp_mass) > tol_for(m_full, band):
             bad.append(('mass', f.mass, exp_mass))
-        if abs(f.mz - exp_mz) > tol + band / max(1, f.charge):
+        if abs(f.mz - exp_mz) > tol_for(m_full / f.charge, band / max(1, f.charge)):
             bad.append(('mz', f.mz, exp_mz))
         if abs(f.neutral_mass - m_neutral) > 1e-6 + band:
             bad.append(('neutral_mass', f.neutral_mass, m_neutral))
